@@ -143,6 +143,9 @@ def run_shard(spec, ctx, acc):
                     break
 
 
+SETPOLL_AMBIGUOUS = set()
+
+
 def byte_probes(t, tier, seed):
     """Deterministic cases: the nominal instance (every counted and variable group
     with one member) with one payload byte at a time set to boundary patterns -
@@ -309,6 +312,18 @@ def check(case) -> core.Out:
                 out.viol.append((key + "shared-value:aliased", "two attributes of one message are the same list object"))
         except Exception as err:  # noqa
             out.viol.append((key + f"shared-value:raises:{type(err).__name__}", repr(err)[:200]))
+    if not out.viol and mode in (1, 2) and len(payload) > 2 and t.clsid not in SETPOLL_AMBIGUOUS:
+        # automatic SET / POLL detection must keep the caller's bitfield view (payloads of 0..2
+        # bytes, where detection is ambiguous, are C17's business and its listed findings)
+        try:
+            sp = pyubx2.UBXReader.parse(frame, msgmode=3, parsebitfield=bf)
+            if sp.msgmode == mode:
+                out.classes = list(out.classes) + ["via-setpoll"]
+                for kind, base, detail in C.compare_attrs(C.public_attrs(sp), expected):
+                    out.viol.append((key + f"setpoll:{kind}:{base}", f"parsed with msgmode=SETPOLL, parsebitfield={bf}: {detail}"))
+                    break
+        except Exception:  # noqa - whether SETPOLL resolves the mode is C17's clause
+            pass
     if not out.viol and (len(payload) + bf) % 2 == 0:
         # a copy of the parsed message (copy / pickle: across processes, queues, caches)
         # exposes the same attributes - in the same bitfield view
